@@ -324,6 +324,8 @@ def check(prop, tier):
                 else:
                     o = json.load(open(orc))
                     oracle_stats[prof] = {k: o[k] for k in ("checked", "distinct_nontrivial", "failures")}
+                    if o["checked"] > gen_stats["requests"]:
+                        evaluations += o["checked"] - gen_stats["requests"]   # in-process sweeps
                     for f in o["first"]:
                         f["profile"] = prof
                         oracle_fail.append(f)
